@@ -306,14 +306,15 @@ struct XferRun : SdoEnv {
 };
 
 const std::vector<int64_t> DOMSIZES = {1, 2, 3, 4, 5, 6, 7, 8, 9, 13, 14, 15, 20, 21, 27, 28, 29, 100, 882, 883, 888, 889, 890, 895, 896, 897, 1000, 1777, 1778, 1779, 2667, 4000};
-static void gen_cfg(Rng &r, Plan &p) {
+static void gen_cfg(Rng &r, Plan &p, bool big = false) {
     p.cfg["nodeid"] = r.pick<int64_t>({1, 1, 2, 5, 64, 127}); p.cfg["oper"] = r.below(2);
     p.cfg["dom0"] = r.pick(DOMSIZES); p.cfg["dom1"] = r.pick(DOMSIZES); p.cfg["dom2"] = r.chance(1, 2) ? 4000 : r.range(1, 4000); p.cfg["dom3"] = r.range(1, 30); p.cfg["dom4"] = r.range(1, 30); p.cfg["dom5"] = r.range(1, 4);
+    if (big && r.chance(1, 150)) p.cfg["dom2"] = r.pick<int64_t>({65536, 70000, 131080});   // a domain beyond 64 KiB (uploads only: block mode keeps the number of exchanges small)
     p.cfg["str0"] = r.range(1, 20); p.cfg["str1"] = r.pick<int64_t>({1, 4, 5, 7, 8, 100, 255, 256, 300});
 }
 static Op gen_begin(Rng &r, int k, bool upload, bool thorough) {
     // objects: index into SdoDict::objs (ints 0..13, domains 14..19, strings 20..21, user 22)
-    int64_t obj = r.chance(1, 2) ? r.range(14, 19) : r.chance(1, 3) && upload ? r.range(20, 21) : r.range(0, 22);
+    int64_t obj = r.chance(1, 2) ? r.range(14, 19) : r.chance(1, 3) && upload ? r.range(20, 21) : r.range(0, 25);
     int64_t mode = r.below(3); int64_t len = r.chance(1, 2) ? 100000 : r.chance(1, 2) ? r.range(1, 30) : r.range(1, 4000);
     Op o("begin", {k, (int64_t)r.below(2), obj, upload ? 1 : 0, mode, (int64_t)r.chance(2, 3), (int64_t)r.below(2), len, (int64_t)r.below(1000), r.pick<int64_t>({127, 127, 1, 2, 3, 7, 64, 126, 100})});
     if (r.chance(1, 2)) {
@@ -323,7 +324,8 @@ static Op gen_begin(Rng &r, int k, bool upload, bool thorough) {
     return o;
 }
 static Plan gen_xfer(Rng &r, bool thorough, bool upload) {
-    Plan p; gen_cfg(r, p);
+    Plan p; gen_cfg(r, p, upload);
+    if (p.cfg["dom2"] >= 65536) { Op o("begin", {0, (int64_t)r.below(2), 16, 1, 2, 1, (int64_t)r.below(2), 100000, (int64_t)r.below(1000), r.pick<int64_t>({127, 127, 64, 100})}); p.ops.push_back(o); p.ops.push_back(Op("finish", {0})); return p; }
     int sessions = (int)r.range(1, 3);
     for (int sidx = 0; sidx < sessions; sidx++) {
         bool two = r.chance(1, 3);
